@@ -1,7 +1,7 @@
 from vlib.core import *
 
 META = dict(
-    level_text="Proved: (kernel level) the Arnoldi/Lanczos kernels init, expand_basis, factorize_from (both), and the restart's re-factorization are written once as computations over an operator that may fail (Model/FaultOp.lean, free monad on `apply the operator`), by threading the effect through the same step structure as the total models; with an operator that never fails they equal the total models of C07/C05 in value and operation counter (c14_kernel_faultfree, _models, _solver); for EVERY computation over the operator, every counter start and every fault index k in the call's window, the call ends with exactly the user's exception, makes no later application (the operator log is the length-k prefix of the fault-free log) and leaves the by-reference counter at k-1 (c14_kernel_propagates, c14_opcount_prefix, c14_kernel_unaffected); (solver level) for every fault index 1 <= k <= num_operations() of the fault-free init(v); compute(args), from any prior object state, the faulted init or compute ends with exactly that exception (c14_propagates for the symmetric solver built from the fault-aware kernels; c14_gen_propagates for GenEigsSolver/GenEigsRealShiftSolver built from FaultOpGen.genKernF, which with an operator that never fails IS GenSolver.genKern (c14_gen_kernel_faultfree, c14_gen_kernel_faultfree_restart), with the counter at the throw c14_gen_opcount_at_throw and the unconditional recovery c14_gen_recover / c14_gen_fault_keeps_consts (Respects discharged by C06's gen_respects); c14_propagates_any_kernels for any kernel record whose operator-applying kernels agree-or-fault); no model function catches, nothing is invented (c14_no_invention), info()/num_iterations() are not half-updated (c14_fault_keeps_status); from ANY state left behind, init(v); compute(args) is observationally identical to a solver that never saw the fault (c14_recover, under Orch.Respects); regenerated from the headers on every run: no raw new/delete/malloc/free in any function of the solver, factorization, decomposition and wrapper classes, the only try/catch is the catch-all of GenEigsComplexShiftSolver::sort_ritzpair whose handler is a catch-ALL `catch (...)` (it runs for an exception of any type, derived from std::exception or not) with exactly `m_op.set_shift(m_sigmar, m_sigmai); throw;` (restore the user's operator, rethrow the same exception object with a bare `throw;`), no caught object is thrown again by value (`throw e;`: slicing) or transported through std::exception_ptr in any scanned function (c14_rethrow_same_object), otherwise only the three standard exception types are thrown (c14_no_leak with the unwinding model c14_unwind_frees_all), and SparseRegularInverse::solve throws std::runtime_error exactly on CG failure and assigns only its own status (c14_lib_thrower). Tie to the running code: exhaustive fault index sweep k = 1..K on all twelve solver configurations (A- and B-operator applications in one index), five fault KINDS with the same predicates (exception derived from std::exception; user struct NOT derived from std::exception; `throw int`; `throw const char*`; class derived from std::runtime_error with extra data, to expose slicing), exception identity (dynamic type, payload, serial number, zero copies; a base-class copy leaving the call is reported as exception-sliced), the user's operator still carrying the shift installed at construction, heap-block balance via the ASan allocator hooks, bitwise recovery, pairs of faults; the symmetric family's (`hermf`) and the general family's (`genf`: GenEigsSolver, GenEigsRealShiftSolver) fault histories — outcome of every faulted call, num_operations() at the throw, recovery run — are replayed bit-exactly by the model.",
+    level_text="Proved: (kernel level) the Arnoldi/Lanczos kernels init, expand_basis, factorize_from (both), and the restart's re-factorization are written once as computations over an operator that may fail (Model/FaultOp.lean, free monad on `apply the operator`), by threading the effect through the same step structure as the total models; with an operator that never fails they equal the total models of C07/C05 in value and operation counter (c14_kernel_faultfree, _models, _solver); for EVERY computation over the operator, every counter start and every fault index k in the call's window, the call ends with exactly the user's exception, makes no later application (the operator log is the length-k prefix of the fault-free log) and leaves the by-reference counter at k-1 (c14_kernel_propagates, c14_opcount_prefix, c14_kernel_unaffected); (solver level) for every fault index 1 <= k <= num_operations() of the fault-free init(v); compute(args), from any prior object state, the faulted init or compute ends with exactly that exception (c14_propagates for the symmetric solver built from the fault-aware kernels; c14_gen_propagates for GenEigsSolver/GenEigsRealShiftSolver built from FaultOpGen.genKernF, which with an operator that never fails IS GenSolver.genKern (c14_gen_kernel_faultfree, c14_gen_kernel_faultfree_restart), with the counter at the throw c14_gen_opcount_at_throw and the unconditional recovery c14_gen_recover / c14_gen_fault_keeps_consts (Respects discharged by C06's gen_respects); c14_propagates_any_kernels for any kernel record whose operator-applying kernels agree-or-fault); no model function catches, nothing is invented (c14_no_invention), info()/num_iterations() are not half-updated (c14_fault_keeps_status); from ANY state left behind, init(v); compute(args) is observationally identical to a solver that never saw the fault (c14_recover, under Orch.Respects); regenerated from the headers on every run: no raw new/delete/malloc/free in any function of the solver, factorization, decomposition and wrapper classes, the only try/catch is the catch-all of GenEigsComplexShiftSolver::sort_ritzpair whose handler is a catch-ALL `catch (...)` (it runs for an exception of any type, derived from std::exception or not) with exactly `m_op.set_shift(m_sigmar, m_sigmai); throw;` (restore the user's operator, rethrow the same exception object with a bare `throw;`), no caught object is thrown again by value (`throw e;`: slicing) or transported through std::exception_ptr in any scanned function (c14_rethrow_same_object), otherwise only the three standard exception types are thrown (c14_no_leak with the unwinding model c14_unwind_frees_all), and SparseRegularInverse::solve throws std::runtime_error exactly on CG failure and assigns only its own status (c14_lib_thrower). Tie to the running code: exhaustive fault index sweep k = 1..K on all twelve solver configurations (A- and B-operator applications in one index), nine fault KINDS with the same predicates (exception derived from std::exception; user struct NOT derived from std::exception; `throw int`; `throw const char*`; user classes with extra data derived from std::runtime_error, std::invalid_argument, std::logic_error, std::out_of_range, std::bad_alloc — the types the library throws or a typed handler could intercept/translate —, to expose slicing and replacement), exception identity (dynamic type, payload, serial number, zero copies; a base-class copy leaving the call is reported as exception-sliced), the user's operator still carrying the shift installed at construction, heap-block balance via the ASan allocator hooks, bitwise recovery, pairs of faults; the symmetric family's (`hermf`) and the general family's (`genf`: GenEigsSolver, GenEigsRealShiftSolver) fault histories — outcome of every faulted call, num_operations() at the throw, recovery run — are replayed bit-exactly by the model.",
     note="Lean kernel + standard axioms; translator/footprint extractor; the B operator is a pure parameter of the kernel-level model (B-operator faults are covered by the all-kernels orchestration theorems and by the exhaustive sweep, not by a kernel-level model); the half-updated object state at the throw point is not modelled field by field (nothing reads it before init(): c14_recover); Respects for the concrete kernels is C06's obligation; C++ unwinding semantics modelled (leakedAt), not verified",
     technique="Lean 4 proof (free-monad interpretation theorems by induction over computations; agree-or-fault simulation + counter invariant through the restart loop) + regenerated structural footprint decided by `decide` + exhaustive fault injection on the implementation with bit-exact model replay",
     design="§5 C14", harnesses=['c14'])
@@ -63,6 +63,6 @@ def run(tier, seed, replay=None):
         R.cov['exhaustive'] = True
         R.cov['rule'] = ('120 (quick) / 600 (thorough) inputs = 12 solver configurations (SymEigs, SymEigsShift, HermEigs, GenEigs, GenEigsRealShift, GenEigsComplexShift incl. probing solves, '
                          'SymGEigs Cholesky x2 / RegularInverse, SymGEigsShift ShiftInvert/Buckling/Cayley) x 8 matrix families x 4 scalings, n <= 8 (12), random rules/maxit/tol; per input EXHAUSTIVELY '
-                         'k = 1..K (K = A+B operator applications of the fault-free run, inputs with K > 90 (400) skipped and counted), on an already used object and on a fresh object; fault KIND: quick = one of 5 kinds (std_exception, raw_struct, int, cstring, runtime_error_rich) per object and index, rotating (warm: (k+case) mod 5, fresh: (k+case+2) mod 5, so any two consecutive indices see 4 kinds), thorough = all 5 kinds x all indices on both objects, the fault history of the fresh object must be the same string for every kind; every 4th (2nd) k a second fault (of the next kind) '
+                         'k = 1..K (K = A+B operator applications of the fault-free run, inputs with K > 90 (400) skipped and counted), on an already used object and on a fresh object; fault KIND (9: std_exception, raw_struct, int, cstring, runtime_error_rich, invalid_argument_rich, logic_error_rich, out_of_range_rich, bad_alloc_rich): quick = per index one of the 6 std-derived kinds on one object and one of the 3 non-std kinds on the other (rotating with k + case + case/12; warm/fresh roles swap with the parity of the case), thorough = all 9 kinds x all indices on both objects, the fault history of the fresh object must be the same string for every kind; every 4th (2nd) k a second fault (of the next kind) '
                          'at a random index of the recovery run; plus fault kind "poison" on every SymGEigsSolver<RegularInverse> input with the real Spectra::SparseRegularInverse as B operator: exhaustively k = 1..K_A, the user A-operator RETURNS a NaN vector at its k-th application so that the library own thrower (SparseRegularInverse::solve -> std::runtime_error) fires inside the operator stack; required: std::runtime_error leaves the call, heap balance, bitwise recovery on the same solver and B-operator objects; non-trivial = faulted calls judged')
     return R.finish()
